@@ -283,6 +283,9 @@ class Engine(HeapMixin, ExprMixin, AccessMixin, CallMixin, StmtMixin):
     self.entry_state_pc = list(st.pc)
     self.entry_params = dict(st.entry_args)
     modkeys = self.keys_of_patterns(spec.modifies)
+    if spec.conc and spec.yields:
+      # across a yield the shared state may be changed by others: no frame claim for it
+      modkeys |= self.keys_of_patterns(list((self.reg.concurrency.get(spec.conc) or {}).get('state', ())))
     if spec.ghost_fn:
       self.ghost_depth += 1     # lemma functions may use prove()/assume() as proof steps
     try:
